@@ -206,14 +206,15 @@ def func_region(meta, fname):
     return None
 
 
-def build_and_run(unit, workdir, vacuity=False, rlimit=None):
+def build_and_run(unit, workdir, vacuity=False, rlimit=None, force=None, attempt=0):
     """Full pipeline for one unit. Returns result dict; never raises for expected failures."""
     out = {'unit': unit, 'vacuity': vacuity, 'status': 'ok', 'reason': None}
     t0 = time.time()
+    force = dict(force or {})
     try:
         with EXTRACT_LOCK:
             extract.SrcFile.cache.clear()
-            meta = extract.build_unit(unit, workdir, vacuity=vacuity)
+            meta = extract.build_unit(unit, workdir, vacuity=vacuity, force_degrade=force)
     except extract.ExtractError as e:
         out.update(status='undecided', reason='extract: %s' % e)
         return out
@@ -240,6 +241,18 @@ def build_and_run(unit, workdir, vacuity=False, rlimit=None):
         out['verus_wall_s'] = round(wall + wall2, 2)
         out['retried_rlimit'] = 40
         r = parse_run(meta, rc, so, se)
+    # a construct the verifier rejects inside ONE contracted function / slice (e.g. an std method without a specification
+    # that an edit introduced) should cost only that item: rebuild with the item degraded (signature-only / left out) and
+    # try again, so that the other obligations of the unit are still decided
+    if r['status'] == 'undecided' and r['tool_errors'] and attempt < 3:
+        kinds = {rg['name']: rg['kind'] for rg in meta['regions']}
+        culprits = {}
+        for e in r['tool_errors']:
+            if e.get('region') and kinds.get(e['region']) == 'item' and e['region'] not in force:
+                culprits[e['region']] = e['message'][:160]
+        if culprits:
+            force.update(culprits)
+            return build_and_run(unit, workdir, vacuity=vacuity, rlimit=rlimit, force=force, attempt=attempt + 1)
     out.update(r)
     out['wall_s'] = round(time.time() - t0, 2)
     with open(os.path.join(workdir, unit + ('_vac' if vacuity else '') + '.stderr.txt'), 'w') as fh:
